@@ -115,7 +115,7 @@ def build(tier, work, builder):
         "trusted_base": ["CBMC 6.11 C++ front end + SAT", "flat type abstraction (TYPE-IS)", "expression arena stub", "induction over tree height (meta-step)",
                          "Document::accept visits every variable/location/edge of every template that visitTemplateBefore admits (not under contract)"],
         "assumptions": ["arity <= 4", "relational nodes are binary (well-formedness from expression_t::get_size, property C19)",
-                        "a clock array with a floating-point initialiser and arrays of channels are outside the flat type abstraction (not decided)"],
+                        "arrays of clocks / channels: nesting depth <= 1 in the harness (the array-stripping loops are unwound with unwinding assertions)"],
         "explanation": "each visitor is executed once on a symbolic node whose children carry arbitrary ghost summaries; postconditions are the statement's conditions",
     }
 
@@ -168,10 +168,17 @@ def replay(rec):
         for e in ("x = 1.5", "i = 0, x = 1.5", "x = 1.5, i = 0"):
             tries.append((dict(assign=e), "symbolic", e))
     elif job == "c17_variable":
-        tries.append((dict(decl="clock z = 1.5;"), "symbolic", "clock z = 1.5"))
-        tries.append((dict(ldecl="clock z = 1.5;"), "symbolic", "local clock z = 1.5"))
+        if "stochastic" in desc:
+            tries.append((dict(ldecl="chan c;"), "stochastic", "template-local chan c"))
+            tries.append((dict(decl="chan c[2];"), "stochastic", "chan c[2]"))
+            tries.append((dict(decl="chan c;"), "stochastic", "chan c"))
+        else:
+            tries.append((dict(decl="clock z = 1.5;"), "symbolic", "clock z = 1.5"))
+            tries.append((dict(ldecl="clock z = 1.5;"), "symbolic", "local clock z = 1.5"))
+            tries.append((dict(decl="clock z[2] = {1.5, 2.5};"), "symbolic", "clock z[2] = {1.5, 2.5}"))
     elif job in ("c17_frame", "c17_ctor"):
         tries.append((dict(decl="chan c;"), "stochastic", "chan c"))
+        tries.append((dict(decl="chan c[2];"), "stochastic", "chan c[2]"))
         tries.append((dict(decl="chan priority default;"), "concrete", "priorities"))
     else:
         return {"confirmed": None, "detail": "no public-API input for this obligation"}
